@@ -200,7 +200,10 @@ fn monitors(line: &str, res: &str, o: &mut Out) {
 
 pub fn run(seed: u64, cases: u64, replay: Option<&str>, o: &mut Out) {
     if let Some(p) = replay {
-        for l in super::replay_lines(p) {
+        let lines = super::replay_lines(p);
+        let has_source = lines.iter().any(|l| !l.starts_with("mon_"));
+        for l in lines {
+            if l.starts_with("mon_d_conv ") && has_source { continue; }
             if l.starts_with("mon_d_conv ") {
                 // a monitor line replays by recomputing D for its balances on the real code
                 let mut t = Toks::new(&l);
